@@ -616,6 +616,28 @@ fn group_d(cat: &mut Catalogue, tier: Tier) {
         let oi = cat.add(Item::Struct(outer));
         cat.root(p(Ty::Item(oi)), "D", format!("Vec and Option fields of {cname}"));
     }
+    // the same key at two nesting levels (outer `fa_x` and inner `fa_x`), with attributes on both
+    {
+        let mut inner = st(vec![FieldSpec::plain("fa_x", pu8()), FieldSpec { default: DefaultSpec::Expr, ..FieldSpec::plain("fb", pu8()) }]);
+        inner.deny = Deny::Default;
+        let ii = cat.add(Item::Struct(inner));
+        let mut outer = st(vec![
+            FieldSpec::plain("fa_x", pu8()),
+            FieldSpec::plain("fb", p(Ty::Item(ii))),
+            FieldSpec { default: DefaultSpec::Trait, ..FieldSpec::plain("more", p(vec_of(p(Ty::Item(ii))))) },
+        ]);
+        outer.deny = Deny::Default;
+        outer.rename_all = Some(RenameAll::Camel);
+        let oi = cat.add(Item::Struct(outer));
+        cat.root(p(Ty::Item(oi)), "D", "same keys at two nesting levels, deny on both, defaulted Vec of inner");
+        // a derived struct inside a Vec inside a struct-like variant of a tagged enum inside an Option field
+        let mut e = tagged_enum("kind");
+        e.variants[1].fields.as_mut().unwrap().push(FieldSpec::plain("items", p(vec_of(p(Ty::Item(ii))))));
+        let ei = cat.add(Item::Enum(e));
+        let top = st(vec![FieldSpec::plain("maybe", opt(bx(p(Ty::Item(ei))))), FieldSpec::plain("fa_x", pu8())]);
+        let ti = cat.add(Item::Struct(top));
+        cat.root(p(Ty::Item(ti)), "D", "struct > Option<Box<tagged enum>> > variant > Vec > struct");
+    }
     // two levels deep
     let two_level: Vec<(Ty, &str)> = {
         let inner = Ty::Item(core.plain2);
